@@ -225,6 +225,7 @@ def run(index, rep, tier):
                         nlen += 1
                         rep.ob("R07.7", fn_where(fi, n.stmt), "%s: `%s` tests the length against None" % (fi.name, norm(e)[:50]), True)
         rep.floor("R07.7", "tests on edge lengths in the tree model", 20, nlen)
+        numeric_truthiness_rule(index, rep, "R07.7", [TM + "_tree", TM + "_node", TM + "_edge"])
 
     # ---- R07.5
     with rep.section("R07.5"):
